@@ -125,7 +125,14 @@ impl<M: Model> Receiver<M> {
                 .receiver_signal
                 .wait_until(|| match self.inner.queue.pop() {
                     Ok(msg) => Some(Some(msg)),
+                    #[cfg(not(nexosim_verif))]
                     Err(PopError::Empty) => None,
+                    #[cfg(nexosim_verif)]
+                    Err(PopError::Empty) => {
+                        crate::verif::probe(crate::verif::Probe::RecvWaited);
+
+                        None
+                    }
                     Err(PopError::Closed) => Some(None),
                 })
                 .await
@@ -255,7 +262,14 @@ impl<M: Model> Sender<M> {
 
                         None
                     }
+                    #[cfg(not(nexosim_verif))]
                     Err(PushError::Closed) => Some(false),
+                    #[cfg(nexosim_verif)]
+                    Err(PushError::Closed) => {
+                        crate::verif::probe(crate::verif::Probe::PushClosed);
+
+                        Some(false)
+                    }
                 }
             })
             .await;
